@@ -714,7 +714,7 @@ static int default_action_terminates(int sig)
   return 1;
 }
 
-int vk_autonomous_gap_ms = 120;
+int vk_autonomous_gap_ms = 400;
 static int deliver_signal(struct vk_child *c, int sig);
 
 int vk_child_enabled(struct vk_child *c)
